@@ -105,7 +105,21 @@ fn main() {
             std::process::exit(props::c13::child_write_graph(&a[2], &a[3], a[4].parse().unwrap_or(0), a[5].parse().unwrap_or(0)));
         }
     }
+    if std::env::args().nth(1).as_deref() == Some("--pool-bench") {
+        // micro-benchmark of the simulated worker pool's set-up / tear-down cost
+        for w in [2usize, 4, 16] {
+            let t0 = std::time::Instant::now();
+            for i in 0..500u64 {
+                let mut core = simcore::Core::new(decider::Decider::seeded(i), w);
+                core.pool_workers = w;
+                let (_r, _c) = simcore::with_sim(core, || 1 + 1);
+            }
+            println!("pool of {w}: {:.1} us per empty execution", t0.elapsed().as_secs_f64() * 1e6 / 500.0);
+        }
+        return;
+    }
     simcore::install_panic_hook();
+    simcore::mark_harness_thread();
     let args = match parse_args() {
         Ok(a) => a,
         Err(e) => {
